@@ -273,3 +273,4 @@ np_harness! { #[kani::unwind(5)] fn c03_mpsc_np_producer_root_o62_d1() { produce
 np_harness! { #[kani::unwind(5)] fn c03_mpsc_np_producer_root_o63_d1() { producer_root(1, BLOCK_MASK) } }
 np_harness! { #[kani::unwind(5)] fn c03_mpsc_np_producer_root_o62_d2() { producer_root(2, BLOCK_MASK - 1) } }
 np_harness! { #[kani::unwind(5)] fn c03_mpsc_np_producer_root_o63_d2() { producer_root(2, BLOCK_MASK) } }
+
